@@ -481,19 +481,22 @@ func main() {
 			fmt.Println("replay: cannot decode", in.From, err)
 			continue
 		}
-		rec0 := w
-		run.Add(toCase(&rec0, "recorded-"))
-		run.Count("replay:recorded")
-		var last *windowD
-		for a := 0; a < *attempts; a++ {
+		// a schedule cannot be replayed deterministically: re-run the recorded programs from the recorded
+		// initial values; the recorded history itself is re-emitted (and re-judged by Coq) only when some
+		// re-run is rejected by the mirror too, so that replaying against a repaired tree passes
+		var reruns []*windowD
+		reproduced := 0
+		for a := 0; a < *attempts && reproduced < 3; a++ {
 			g := build(w.Shape, w.Init, &jit{level: w.Jitter})
 			nw := &windowD{Shape: w.Shape, Threads: w.Threads, Jitter: w.Jitter, Progs: w.Progs}
+			run.Count("replay:attempt")
 			var ok0 bool
 			if nw.Init, nw.Ver, ok0 = g.readState(); !ok0 {
 				nw.Init, nw.Timeout = w.Init, true
 				nw.Final = w.Init
 				finishWindow(nw, []rec{stuckRead(clock)})
-				last = nw
+				reruns = append(reruns, nw)
+				reproduced++
 				break
 			}
 			recs, to := runWindow(g, w.Progs, clock)
@@ -508,15 +511,26 @@ func main() {
 				}
 			}
 			finishWindow(nw, recs)
-			last = nw
-			run.Count("replay:attempt")
-			if nw.GoNonLin || to {
+			if nw.GoNonLin || nw.Timeout {
+				reproduced++
+				reruns = append(reruns, nw)
+			} else if a%15 == 0 { // a sample of the accepted re-runs is judged by Coq as well
+				reruns = append(reruns, nw)
+			}
+			if nw.Timeout {
 				break
 			}
 		}
-		if last != nil {
-			stats(run, last)
-			run.Add(toCase(last, "rerun-"))
+		if reproduced > 0 {
+			rec0 := w
+			run.Add(toCase(&rec0, "recorded-"))
+			run.Count("replay:reproduced")
+		} else {
+			run.Count("replay:not-reproduced")
+		}
+		for _, nw := range reruns {
+			stats(run, nw)
+			run.Add(toCase(nw, "rerun-"))
 		}
 	}
 	if run.Replay != "" {
